@@ -221,6 +221,7 @@ class Validation:
         self.hw = 0
         self.n = 0
         self.mismatch = None     # (line index 1-based, text)
+        self.mismatches = []     # all of them, when the trace spec continues after a mismatch (survey mode)
         self.known = []          # [(line, tag)]
         self.out = ""
         self.wall = 0.0
@@ -263,21 +264,25 @@ def validate(ctx, module, trace_path, cfg=None, timeout=1800, deque=False, env=N
         m = _KD.match(ln)
         if m:
             v.known.append((int(m.group(1)), m.group(2)))
-    mm = re.search(r'<<\s*"MISMATCH",\s*(\d+)', out)
-    if mm:
+    v.mismatches = []
+    for mm in re.finditer(r'<<\s*"MISMATCH",\s*(\d+)', out):
         txt = out[mm.start():mm.start() + 4000]
-        end = txt.find('<<"HW"')
+        end = txt.find('<<', 3)
+        while end > 0 and not re.match(r'<<\s*"(HW|MISMATCH|KNOWNDEV)"', txt[end:end + 16]):
+            end = txt.find('<<', end + 2)
         if end > 0:
             txt = txt[:end]
-        v.mismatch = (int(mm.group(1)), " ".join(txt.split())[:1500])
+        v.mismatches.append((int(mm.group(1)), " ".join(txt.split())[:1500]))
+    if v.mismatches:
+        v.mismatch = v.mismatches[0]
     if rc == 124:
         raise Infra("TLC timeout validating %s with %s" % (trace_path, module))
     if not _HW.search(out.replace("\n<<", "\n<<")) and v.n == 0:
         ei = out.find("Error:")
         raise Infra("trace validator %s did not reach its postcondition:\n%s" % (
             module, out[ei:ei + 2500] if ei >= 0 else out[-3000:]))
-    v.accepted = (v.hw == v.n + 1) and "is false" not in out and "Error:" not in out
-    if not v.accepted and v.hw == v.n + 1:
+    v.accepted = (v.hw == v.n + 1) and "is false" not in out and "Error:" not in out and not v.mismatches
+    if not v.accepted and v.hw == v.n + 1 and not v.mismatches:
         raise Infra("trace validator %s consumed the trace but TLC reported an error:\n%s" % (module, out[-3000:]))
     gen, dist = tlc_stats(out)
     ctx.cov["model_runs"].append({"module": module, "mode": "trace-validation", "events": v.n, "consumed": v.hw - 1,
@@ -424,20 +429,28 @@ def handle_validation(ctx, v, events, kind, script_of=None, max_samples=3):
         ctx.log("(T) %s: %d traces / %d events accepted in %.1fs (%d known-finding traces)" % (
             kind, len(traces), v.n, v.wall, len(v.known)))
         return True
-    line = v.hw  # 1-based index of the event that could not be consumed
-    idx = -1
-    for i, (start, _) in enumerate(traces):
-        if start + 1 <= line:
-            idx = i
-    if idx < 0:
-        tr, off = events, line - 1
-    else:
-        tr, off = traces[idx][1], line - 1 - traces[idx][0]
-    what = "%s: specification cannot explain event #%d of a recorded trace: %s" % (
-        kind, off, (json.dumps(tr[off])[:400] if 0 <= off < len(tr) else "?"))
-    rep = {"kind": kind, "trace": tr[:off + 1], "failing_event_index": off, "tlc": (v.mismatch[1] if v.mismatch else None)}
-    if script_of and idx >= 0:
-        rep["script"] = script_of(idx)
+    lines = [(ln, txt) for ln, txt in v.mismatches] if v.mismatches else [(v.hw, v.mismatch[1] if v.mismatch else None)]
+    seen_traces = set()
+    for line, txt in lines:
+        idx = -1
+        for i, (start, _) in enumerate(traces):
+            if start + 1 <= line:
+                idx = i
+        if idx in seen_traces or len(seen_traces) >= 12:
+            continue
+        seen_traces.add(idx)
+        if idx < 0:
+            tr, off = events, line - 1
+        else:
+            tr, off = traces[idx][1], line - 1 - traces[idx][0]
+        what = "%s: specification cannot explain event #%d of a recorded trace: %s" % (
+            kind, off, (json.dumps(tr[off])[:400] if 0 <= off < len(tr) else "?"))
+        rep = {"kind": kind, "trace": tr[:off + 1], "failing_event_index": off, "tlc": txt}
+        if script_of and idx >= 0:
+            rep["script"] = script_of(idx)
+        report_violation(ctx, what, rep)
+    return False
+    what = rep = None
     report_violation(ctx, what, rep)
     return False
 
